@@ -38,6 +38,7 @@ type xmlStyle struct {
 	encoding string            // "", "UTF-8", "ISO-8859-1", "windows-1252", "US-ASCII"
 	decl     bool
 	rng      *rand.Rand
+	order    int // within a start tag: 0 namespace declarations first, 1 attributes first, 2 interleaved at random
 }
 
 func (st *xmlStyle) pre(p []string) string {
@@ -112,11 +113,14 @@ func renderXML(items []xmlItem, st *xmlStyle) string {
 		case "start":
 			name := st.qname(it.Pre, it.Lo)
 			b.WriteString("<" + name)
+			// namespace declarations are attributes of the tag and may stand anywhere among the others; the data
+			// model does not care (the relative order of declarations and that of attributes is kept)
+			var ds, as []string
 			for _, d := range it.Decls {
 				if len(d.Pre) == 0 {
-					b.WriteString(` xmlns="` + escText(str(d.Uri), true) + `"`)
+					ds = append(ds, ` xmlns="`+escText(str(d.Uri), true)+`"`)
 				} else {
-					b.WriteString(` xmlns:` + st.pre(d.Pre) + `="` + escText(str(d.Uri), true) + `"`)
+					ds = append(ds, ` xmlns:`+st.pre(d.Pre)+`="`+escText(str(d.Uri), true)+`"`)
 				}
 			}
 			for _, a := range it.Attrs {
@@ -126,7 +130,17 @@ func renderXML(items []xmlItem, st *xmlStyle) string {
 					q = "'"
 					val = strings.ReplaceAll(val, "&quot;", "\"")
 				}
-				b.WriteString(" " + st.qname(a.Pre, a.Lo) + "=" + q + val + q)
+				as = append(as, " "+st.qname(a.Pre, a.Lo)+"="+q+val+q)
+			}
+			for len(ds) > 0 || len(as) > 0 {
+				takeDecl := len(as) == 0 || (len(ds) > 0 && (st.order == 0 || (st.order == 2 && st.rng.Intn(2) == 0)))
+				if takeDecl {
+					b.WriteString(ds[0])
+					ds = ds[1:]
+				} else {
+					b.WriteString(as[0])
+					as = as[1:]
+				}
 			}
 			if i+1 < len(items) && items[i+1].K == "end" && st.rng.Intn(2) == 0 {
 				b.WriteString("/>")
@@ -226,9 +240,9 @@ func xmlCase(line string, rep *Report, fnd *Findings) {
 	}
 	styles := []*xmlStyle{
 		{rng: rand.New(rand.NewSource(seed))},
-		{rng: rand.New(rand.NewSource(seed + 1)), decl: true, encoding: "UTF-8", rename: map[string]string{"p": "q", "q": "p"}},
+		{rng: rand.New(rand.NewSource(seed + 1)), decl: true, encoding: "UTF-8", rename: map[string]string{"p": "q", "q": "p"}, order: 1},
 		{rng: rand.New(rand.NewSource(seed + 2)), decl: true, encoding: []string{"ISO-8859-1", "windows-1252", "US-ASCII", "iso-8859-1", "latin1"}[int(seed%5+5)%5], rename: map[string]string{"p": "ns-1", "q": "_x.y"}},
-		{rng: rand.New(rand.NewSource(seed + 3)), decl: true},
+		{rng: rand.New(rand.NewSource(seed + 3)), decl: true, order: 2},
 	}
 	var plain string
 	for si, st := range styles {
